@@ -716,6 +716,23 @@ def _handler_keys(chk, repo):
         ok = inloop_guards(rc, rm[0][0].id, lp[0].id) == {canon_fact("%s.key == key.key" % v, True)}
     chk.ob("KEY-7", "removal by key looks under key.event and removes exactly the registrations whose key is key.key", ok, r.where(), construct=r.ident,
            text="removal by key lookup")
+    # the list form removes every key it is given, each through the by-key removal
+    rl = repo.func(EV, "EventManager.remove_handlers_by_keys")
+    lc = rl.cfg()
+    plist = [a.arg for a in rl.node.args.args if a.arg != "self"]
+    loops = [h for h in lc.nodes if h.kind == "loop" and plist and src(h.ast.iter) in (plist[0], "list(%s)" % plist[0], "%s[:]" % plist[0])
+             and isinstance(h.ast.target, ast.Name)]
+    ok = False
+    if loops:
+        from sa.helpers import inloop_guards
+        h = loops[0]
+        for n, c in lc.calls_named("remove_handler_by_key"):
+            if c.args and src(c.args[0]) == h.ast.target.id and not c.keywords and inloop_guards(lc, n.id, h.id) == set():
+                ok = True
+    chk.ob("KEY-7", "removal of a key list removes every key of the list through the by-key removal", ok, rl.where(), construct=rl.ident,
+           detail="keys grouped per event or filtered leave registrations behind when several keys share one event (a mode with two "
+                  "conditional entries on the same event): the mode's handlers survive its stop and fire again in later runs",
+           text="key list removal visits every key")
 
 
 def battery():
@@ -732,6 +749,8 @@ def battery():
         M("key not tracked", MD, "        self.event_handlers.add(key)\n", "", "OWN-7"),
         M("switch handlers survive stop", MD, "        self._remove_mode_switch_handlers()\n\n        self.delay.clear()", "        self.delay.clear()", "DOM-15"),
         M("devices not removed", MD, "        self._remove_mode_event_handlers()\n        self._remove_mode_devices()\n", "        self._remove_mode_event_handlers()\n", "DOM-15"),
+        M("key list collapsed per event", "mpf/core/events.py", "        for key in key_list:\n            self.remove_handler_by_key(key)", "        for key in {key.event: key for key in key_list}.values():\n            self.remove_handler_by_key(key)", ("KEY-7", "RANGE-0")),
+        M("twin: key list copied before removal", "mpf/core/events.py", "        for key in key_list:\n            self.remove_handler_by_key(key)", "        for key in list(key_list):\n            self.remove_handler_by_key(key)", None),
         M("handler set not reset", MD, "            self.machine.events.remove_handler_by_key(key)\n        self.event_handlers = set()", "            self.machine.events.remove_handler_by_key(key)", "DOM-15"),
         M("stop methods skipped when no callback", MD, "        for item in self.stop_methods:\n            item[0](item[1])", "        for item in (self.stop_methods if self.stop_callbacks else []):\n            item[0](item[1])", "DOM-15"),
         M("event player keeps condition state", EP, "    def clear_context(self, context):\n        \"\"\"Forget the condition values seen in this context.\"\"\"\n        self._reset_instance_dict(context)\n\n", "", "SIB-1"),
